@@ -66,6 +66,16 @@ type Case struct {
 	// HookSleeps: hook point -> [micros, percent]
 	HookSleeps map[string][2]int
 
+	// Pattern, when set, replaces the random op/msg choice: events of every
+	// source cycle through these tokens: S join start line, C continuation,
+	// N normal line, X normal line without the "jm" field, D script discard,
+	// B script break, H script hold, L script collapse, K split parent whose
+	// children are all discarded, P reader pause of PauseMs (no event).
+	Pattern []string
+	// StopAfterMs > 0: Pipeline.Stop is called that long after the readers
+	// started, while the output may still be retrying.
+	StopAfterMs int
+
 	Trace bool // stream every record to the child's on-disk log (used when re-running a crashing case)
 
 	Spread bool // input calls UseSpread + DisableStreams (kafka-like)
